@@ -69,3 +69,36 @@ def register(reg):
             "  (('?' + query_args) if len(query_args) > 0 else ''))",
         ]},
     )
+
+    # ---- the method / websocket gate of the recursive matcher (base cases of _match) -------------------------
+    import z3
+    from pyvc.values import VOpt, VSet, VBool, opaque_sort, StrS, BoolS
+    RS = opaque_sort("rule")
+    R_MNONE = z3.Function("rule_methods_none", RS, BoolS)
+    R_METH = z3.Function("rule_methods", RS, z3.ArraySort(StrS, BoolS))
+    R_WS = z3.Function("rule_websocket", RS, BoolS)
+    R_STRICT = z3.Function("rule_strict_slashes", RS, BoolS)
+    reg.overrides["opaque:rule.methods"] = lambda it, o, n: VOpt(R_MNONE(o.z), VSet(R_METH(o.z), "str"))
+    reg.overrides["opaque:rule.websocket"] = lambda it, o, n: VBool(R_WS(o.z))
+    reg.overrides["opaque:rule.strict_slashes"] = lambda it, o, n: VBool(R_STRICT(o.z))
+    reg.overrides["opaque:state.rules"] = lambda it, o, n: it.fresh("List[opaque:rule]", "state_rules")
+    reg.spec_names["rule_ok"] = __import__("pyvc.values", fromlist=["VBuiltin"]).VBuiltin(
+        "spec:rule_ok", lambda it, a, k, n: VBool(z3.And(z3.Or(R_MNONE(a[0].z), z3.Select(R_METH(a[0].z), a[1].z)),
+                                                         R_WS(a[0].z) == a[2].z)))
+    StateLeaf = reg.model("StateLeaf", fields={"rules": "List[opaque:rule]"})
+    StateM = reg.model("StateM", fields={"rules": "List[opaque:rule]", "static": "Dict[str, opaque:state]",
+                                         "dynamic": "List[opaque:transition]"})
+    reg.contract(
+        "werkzeug/routing/matcher.py:StateMachineMatcher.match._match", prop="C03",
+        params={"state": StateM, "parts": "List[str]", "values": "List[str]"},
+        closure={"method": "str", "websocket": "bool", "have_match_for": "Set[str]", "websocket_mismatch": "bool"},
+        # base cases: every part consumed, or only the trailing-slash part left and no dynamic transition to try
+        assumes=["len(parts) == 0 or (len(parts) == 1 and parts[0] == '' and len(state.dynamic) == 0 and not ('' in state.static))"],
+        ensures=[
+            # a rule is only ever returned if it allows the request method and has the right websocket flag
+            "result is None or rule_ok(result[0], method, websocket)",
+        ],
+        raises={"SlashRequired": "True"},
+        loops={0: {"inv": ["True"], "modifies": ["have_match_for"]},
+               1: {"inv": ["True"]}, 2: {"inv": ["True"]}, 3: {"inv": ["True"], "modifies": ["have_match_for"]}},
+    )
